@@ -56,6 +56,13 @@ Tolerances / regime (calibration, R5):
    zero charge; counted in `undecidable_n`) the statement's tolerance is not decidable
    and is not claimed; there the check alarms only if the deviation exceeds the convergence tolerance the input asked
    for - which implies a violation of the statement's tolerance too, so no alarm is ever raised where the statement holds.
+   The solver's SITE-balance criterion has an absolute floor too: a residual below ineq_tol = 1e-15 mol per site type
+   counts as converged whatever the convergence tolerance (model.cpp residuals(): SURFACE unknowns).  The engine books the
+   reference charge of a charged master species (CD-MUSIC sites: -0.5) on the DEFINED sites, so in a converged run the
+   plane charges summed from the species may differ from the solver's own by |z master| x 1e-15 eq per site type;
+   that amount (x F/A for a charge density) is part of the floor of the CD-MUSIC relations (zero for surfaces with
+   neutral master species).  Found on the unchanged tree with the 250 m2 goethite surface of mode "kinm" (I = 1, pH 7,
+   -donnan): site residuals 8.6e-16 and 6.2e-16 mol -> sigma0+sigma1 = 1.9e-5 C/m2 off by 2.85e-13 C/m2 (1.43e-8 rel).
    A small lattice at the default tolerance (1e-8) is run too; its worst relative residuals and the number of points
    beyond 1e-8 relative are *reported* in the evidence (`default_tolerance_*`), not judged.
  * The statement gives no tolerance for (4).  It is a balance of many signed terms and is judged relative to its gross
@@ -91,6 +98,8 @@ TOL = 1e-8                      # the statement's tolerance (relative)
 CTOL = 1e-13                    # KNOBS -convergence_tolerance of every judged input (see the module docstring)
 CASE_TIMEOUT = 20.0
 ULP = 64 * 2.3e-16              # resolution of a sum of doubles (cancellation allowance, see judge())
+INEQ_TOL = 1e-15                # the engine's ineq_tol (10^-DBL_DIG; KNOBS -tolerance, not changed by the inputs): absolute
+                                # site-balance residual [mol] below which a SURFACE unknown counts as converged
 
 # ------------------------------------------------------------------------------------------------- alphabet
 USER_DB = """SURFACE_MASTER_SPECIES
@@ -647,7 +656,14 @@ def judge(case, lay, o, tag, problems, diags, stats, seg=0):
                 raise RuntimeError("multi-site CD-MUSIC surface %s without charged master species" % s)
             stats["cdmusic-multisite_n"] = stats.get("cdmusic-multisite_n", 0) + 1
 
-        def cmp(name, got, want):
+        # the solver's site-balance criterion accepts an ABSOLUTE residual below ineq_tol = 1e-15 mol per site type
+        # whatever the convergence tolerance (model.cpp residuals(), SURFACE unknowns); the engine books the reference
+        # charge of a charged master species (CD-MUSIC: -0.5) on the DEFINED sites, so a converged run's plane charges
+        # from the species may differ from the solver's own by |z master| x 1e-15 eq per site type: part of the floor
+        site_floor = 0.0 if case.get("diag") else INEQ_TOL * sum(abs(R.charge(db.masters[st])) for st in sts)     # eq
+        cfloor = floor + site_floor * f
+
+        def cmp(name, got, want, floor=cfloor):
             e = abs(got - want)
             r = R.rel(got, want)
             stats[name] = max(stats.get(name, 0.0), r if (e > slack and TOL * max(abs(got), abs(want)) >= floor) else 0.0)
@@ -689,9 +705,9 @@ def judge(case, lay, o, tag, problems, diags, stats, seg=0):
             stats["dl-balance_n"] = stats.get("dl-balance_n", 0) + 1
             if len(dl["species"]) < 3:
                 raise RuntimeError("EDL_SPECIES returned %d species for an explicit diffuse layer" % len(dl["species"]))
-            if TOL * gross < floor:
+            if TOL * gross < floor + site_floor:
                 stats["undecidable_n"] = stats.get("undecidable_n", 0) + 1
-            if not (e <= max(TOL * gross, floor) + sl):
+            if not (e <= max(TOL * gross, floor + site_floor) + sl):
                 problems.append(("diffuse-layer-balance model=%s" % case["model"],
                                  "%s: surface %s: charge of surface species %.17g eq, net charge of the ions in the diffuse layer %.17g eq, sum %.3g eq = %.3g of the gross charge %.3g eq" % (
                                      tag, s, stot, q, q + stot, r, gross)))
@@ -920,6 +936,8 @@ ASSUMPTIONS = [
     "CD-MUSIC without explicit diffuse layer: the charge behind plane 2 is the mixed-electrolyte Gouy-Chapman (Grahame) charge over ALL aqueous species at psi2, a charge imbalance of the solution being carried by a fictitious monovalent counter ion (convention of the implementation, model.cpp eqns A-6/A-7)",
     "-cd_music dz0 dz1 dz2 f z: the central ion charge z is split f : (1-f) over planes 0 and 1 (manual)",
     "judged inputs ask for KNOBS -convergence_tolerance 1e-13 (the engine's charge residual criterion is absolute); lattice surfaces have >= 2e-4 mol sites",
+    "the engine's site-balance criterion accepts an absolute residual below ineq_tol = 1e-15 mol per site type; for CD-MUSIC surfaces (master species with reference charge) |z master| x 1e-15 eq per site type is added to the absolute floor below which the 1e-8 relative tolerance of the plane-charge relations is not decidable",
+    "a surface related to an equilibrium phase / kinetic reactant: defined sites = sites per mole x the moles of the reactant in that calculation (EQUI / KIN); in the initial surface calculation the moles the reactant is defined with (-m, default -m0)",
     "EDL_SPECIES moles are the total moles of each ion in the diffuse-layer water",
     "phreeqc.dat Hfo_w / Hfo_s and the user-defined site types of USER_DB; wateq4f.dat and minteq.v4.dat Hfo_w / Hfo_s with every surface species of the database text; vdrv driver and the Python oracle are trusted",
     "mass action is evaluated with the reaction AS WRITTEN in the database text (reactants e.g. SeO3-2, HSeO3-, H3AsO3, Co+2, Cr(OH)2+, Sn(OH)2 with their reported LA()), dz = charge of the product - charge of the surface reactant; how the engine rewrites the reaction in the master species of the current model (electrons when the element is redox-active) is not used",
